@@ -21,28 +21,85 @@ def parseVars (s : String) : Option TargetVars :=
   | [some a, some b, some c, some d, some e] => some ⟨a, b, c, d, e⟩
   | _ => none
 
-def parseEntry (s : String) : Option (Bytes × EntryKind) :=
+/-- one entry of the listing as the harness describes it; `sibling`: the regular-file entry of the same listing this entry
+aliases (kinds `ls`, `hs`) -/
+structure RawEntry where
+  name : Bytes
+  kind : EntryKind
+  sibling : Option Bytes
+  /-- the entry is of kind `f` (what a sibling reference may point at) -/
+  plain : Bool := false
+
+/-- kinds: `f` file, `hf` hard link to a file outside the directory (a regular file); `lf` link to a file, `lr` relative link
+to a file, `l2` link to a link to a file; `d` directory, `de` empty directory; `ld` link to a directory, `ld2` link to a link
+to a directory; `dl` dangling link, `lo` link to itself (resolves to nothing); with a fourth component naming a sibling
+entry: `ls` link to that sibling, `hs` hard link to that sibling -/
+def parseEntry (s : String) : Option RawEntry :=
   match s.splitOn ":" with
   | [n, k, c] =>
     match hexDecode n, hexDecode c with
     | some n, some c =>
-      if k = "f" then some (n, .file c) else if k = "lf" then some (n, .linkFile c)
+      if k = "f" then some ⟨n, .file c, none, true⟩
+      else if k = "hf" then some ⟨n, .file c, none, false⟩
+      else if k = "lf" ∨ k = "lr" ∨ k = "l2" then some ⟨n, .linkFile c, none, false⟩
       else if c ≠ [] then none
-      else if k = "d" then some (n, .dir) else if k = "ld" then some (n, .linkDir) else if k = "dl" then some (n, .dangling) else none
+      else if k = "d" ∨ k = "de" then some ⟨n, .dir, none, false⟩
+      else if k = "ld" ∨ k = "ld2" then some ⟨n, .linkDir, none, false⟩
+      else if k = "dl" ∨ k = "lo" then some ⟨n, .dangling, none, false⟩
+      else none
     | _, _ => none
+  | [n, k, c, sb] =>
+    match hexDecode n, hexDecode c, hexDecode sb with
+    | some n, some c, some sb =>
+      if k = "ls" then some ⟨n, .linkFile c, some sb, false⟩
+      else if k = "hs" then some ⟨n, .file c, some sb, false⟩
+      else none
+    | _, _, _ => none
   | _ => none
 
+/-- every aliasing entry names a regular-file entry of the same listing with the same content -/
+def siblingsOk (l : List RawEntry) : Bool :=
+  l.all (fun e => match e.sibling with
+    | none => true
+    | some sb => match e.kind.fileContent with
+      | some c => l.any (fun q => q.plain && q.name == sb && q.kind == .file c)
+      | none => false)
+
 def parsePlat (s : String) : Option PlatDir :=
-  if s = "noenv" ∨ s = "noplat" then some .noEnv
-  else if s = "notdir" then some .notDir
-  else (allSome ((splitList s ",").map parseEntry)).map .entries
+  if s = "noenv" ∨ s = "noplat" ∨ s = "envdangling" then some .noEnv
+  else if s = "notdir" ∨ s = "envlinkfile" then some .notDir
+  else match allSome ((splitList s ",").map parseEntry) with
+    | some l => if siblingsOk l then some (.entries (l.map (fun e => (e.name, e.kind)))) else none
+    | none => none
+
+/-- the fourth component of the directory field: `e` (env is a link to the directory with the entries) and / or `p` (the
+platform directory is a link) - both invisible to what the platform supplies -/
+def flagsOk (s : String) : Bool := s.all (fun c => c = 'e' || c = 'p')
+
+/-- names the harness itself puts into the process environment -/
+def inputVars : List String := ["CNB_TARGET_OS", "CNB_TARGET_ARCH", "CNB_TARGET_ARCH_VARIANT", "CNB_TARGET_DISTRO_NAME",
+  "CNB_TARGET_DISTRO_VERSION", "CNB_BUILDPACK_DIR", "TBP_OUT", "TBP_DETECT", "TBP_BUILD"]
+
+/-- field 10: other variables of the process environment, `hexname=hexvalue,…`; none may be named like an input, names are
+non-empty and hold no `=`, nothing holds a NUL -/
+def othersOk (s : String) : Bool :=
+  (splitList s ",").all (fun kv => match kv.splitOn "=" with
+    | [n, v] => (match hexDecode n, hexDecode v with
+      | some n, some v => !n.isEmpty && !n.contains 61 && !n.contains 0 && !v.contains 0 && !(inputVars.map strBytes).contains n
+      | _, _ => false)
+    | _ => false)
 
 def tRoot : Bytes := strBytes "$T/"
 
 def parseInputs (fields : List String) : Option (String × Inputs String) :=
-  match fields with
+  match (if fields.length = 11 then (if othersOk (fields.getD 10 "") then some (fields.take 10) else none) else some fields) with
+  | none => none
+  | some fields10 =>
+  match fields10 with
   | [phase, dirs, vars, plat, _planToml, planX, _storeToml, storeX, _descToml, descX] =>
-    match (dirs.splitOn "/").map hexDecode, parseVars vars, parsePlat plat with
+    let dparts := dirs.splitOn "/"
+    if !(dparts.length = 3 ∨ (dparts.length = 4 ∧ flagsOk (dparts.getD 3 ""))) then none else
+    match (dparts.take 3).map hexDecode, parseVars vars, parsePlat plat with
     | [some app, some bp, some layers], some vars, some plat =>
       if phase = "detect" then
         if planX = "-" ∧ storeX = "-" then
